@@ -155,3 +155,4 @@ End JumpEval.
 Arguments mkJS {K} _ _ _ _. Arguments jci {K} _. Arguments jcj {K} _. Arguments jdR {K} _. Arguments jkra {K} _.
 Arguments mkTS {K} _ _ _ _. Arguments ts0 {K} _. Arguments ts1 {K} _. Arguments tsoth {K} _. Arguments tsw {K} _.
 Arguments mkVC {K} _ _ _. Arguments vci {K} _. Arguments voth {K} _. Arguments vhv {K} _.
+Arguments cs_fin {K} _. Arguments cs_ini {K} _. Arguments jrev {K} _.
